@@ -16,7 +16,7 @@ RULE = ("the C01 renderable-tree specs plus renderables without a measure method
         "line separators) for the widest-word / widest-line identities. Non-trivial: depth >=1 and "
         "minimum < maximum; distinct by (spec, width).")
 ASSUMPTIONS = ["structural minimum as in C01", "a 'line' of a text is a maximal run without '\\n'; words are split at whitespace"]
-REQUIRED = ["mon.text_rendered_at_reported", "mon.bounds_contract", "mon.render_at_max", "mon.render_at_min", "mon.text_identities", "mon.text_not_wrapped_at_max", "mon.render_with_options_narrower_than_console"]
+REQUIRED = ["mon.measure_edit_measure", "mon.text_rendered_at_reported", "mon.bounds_contract", "mon.render_at_max", "mon.render_at_min", "mon.text_identities", "mon.text_not_wrapped_at_max", "mon.render_with_options_narrower_than_console"]
 MIN_NONTRIVIAL = {"quick": 2000, "thorough": 100000}
 
 _installed = False
@@ -148,6 +148,64 @@ def wl_text(ctx, rng, case_no):
                 ctx.violation("text-rendered-at-reported-width-is-wider:%s" % ("no_wrap" if no_wrap else "wrapping"),
                               dict(wit, rendered_at=v, line_widths=widths[:10], no_wrap=no_wrap, overflow=overflow))
                 break
+    # measured, edited in place, measured again: the second answer must be the answer for the text as it is NOW (what a
+    # fresh text of the same characters reports), whatever the first measurement may have left behind in the object
+    import random as _random
+    r2 = _random.Random("edit/%d/%s" % (case_no, s[:16]))
+    if r2.random() < 0.5:
+        ctx.count("mon.measure_edit_measure")
+        src = s if r2.random() < 0.7 or not s else s[:len(s) // 2] + "\t" + s[len(s) // 2:]
+        t = Text(src, tab_size=r2.choice([8, 4, 2]))
+        first = Measurement.get(console, t, W)
+        edits = []
+        for _ in range(r2.choice([1, 1, 2, 3])):
+            n = len(t)
+            e = r2.choice(["right_crop", "set_length_shorter", "set_length_longer", "truncate", "truncate_pad", "expand_tabs",
+                           "pad_left", "pad_right", "pad", "append", "append_text", "rstrip", "rstrip_end", "plain_set",
+                           "align", "remove_suffix", "stylize", "measure_again"])
+            edits.append(e)
+            if e == "right_crop":
+                t.right_crop(r2.randint(0, max(1, n // 2)))
+            elif e == "set_length_shorter":
+                t.set_length(r2.randint(0, n))
+            elif e == "set_length_longer":
+                t.set_length(n + r2.randint(1, 9))
+            elif e == "truncate":
+                t.truncate(r2.randint(1, 30), overflow=r2.choice(["crop", "ellipsis", "fold"]))
+            elif e == "truncate_pad":
+                t.truncate(r2.randint(1, 60), overflow=r2.choice(["crop", "ellipsis"]), pad=True)
+            elif e == "expand_tabs":
+                t.expand_tabs()
+            elif e == "pad_left":
+                t.pad_left(r2.randint(1, 5))
+            elif e == "pad_right":
+                t.pad_right(r2.randint(1, 5))
+            elif e == "pad":
+                t.pad(r2.randint(1, 4))
+            elif e == "append":
+                t.append(r2.choice([" more words", "x", "\nline", "漢字"]))
+            elif e == "append_text":
+                t.append_text(Text(r2.choice([" tail", "y", "\nz"])))
+            elif e == "rstrip":
+                t.rstrip()
+            elif e == "rstrip_end":
+                t.rstrip_end(r2.randint(1, 30))
+            elif e == "plain_set":
+                t.plain = r2.choice(["", "replaced text", t.plain[: n // 2], t.plain + " longer"])
+            elif e == "align":
+                t.align(r2.choice(["left", "center", "right"]), r2.randint(1, 60))
+            elif e == "remove_suffix":
+                t.remove_suffix(t.plain[-2:])
+            elif e == "stylize":
+                t.stylize("bold", 0, max(1, n // 2))
+            else:
+                Measurement.get(console, t, r2.choice([W, max(1, W // 2)]))
+        again = Measurement.get(console, t, W)
+        fresh = Measurement.get(console, Text(t.plain), W)
+        if tuple(again) != tuple(fresh):
+            ctx.violation("measurement-of-edited-text-is-stale:%s" % "+".join(sorted(set(edits) - {"measure_again", "stylize"})),
+                          {"text": src, "edits": edits, "now": t.plain, "available": W, "first": tuple(first),
+                           "measured_after_edit": tuple(again), "fresh_text_of_same_characters": tuple(fresh)})
     ctx.case_done(("t", s, W), len(words) >= 2 and mn < mx, wit)
 
 
